@@ -15,7 +15,7 @@ RULE = ("strings generated from the URI grammar and its near misses (3 protocols
         "PYTHONHASHSEEDs. distinct = distinct strings; non-trivial = strings URI() accepts")
 ASSUMPTIONS = ["hash() raising TypeError for a PYROMETA uri (set-valued object) is recorded, not flagged: no hash is not an unequal hash",
                "json/msgpack carry the PYROMETA tag set as a list (C01's mapping); compared as a set"]
-REQUIRED_REACH = ["variant_pairs", "accepted", "rejected", "ser_roundtrips", "proxy_roundtrips", "ns_roundtrips", "unequal_location_pairs", "bound_proxies_checked"]
+REQUIRED_REACH = ["ns_case_twin_reregistrations", "variant_pairs", "accepted", "rejected", "ser_roundtrips", "proxy_roundtrips", "ns_roundtrips", "unequal_location_pairs", "bound_proxies_checked"]
 SHARD_TIMEOUT = {"quick": 200, "thorough": 2400}
 
 PROTOS = ["PYRO", "pyro", "PyRo", "PYRONAME", "pyroname", "PyroName", "PYROMETA", "pyrometa", "PyroMeta", "PYROX", "PYR", "PYRONAMES", "pYRO"]
@@ -193,6 +193,27 @@ def check_string(env, s, rec, deep, with_sql):
             rec.violation("nameserver-roundtrip-differs", "%s name server returned %r for %r" % (label, fields(got), fields(u)), ("s", s))
             return u
         rec.count("ns_roundtrips")
+        # the name is registered again, for a uri that differs from the first one in the letter case of its object id only (ids are case
+        # sensitive: another object): the name server answers with what was registered last
+        if u.protocol in ("PYRO", "PYRONAME") and isinstance(u.object, str) and u.object.swapcase() != u.object:
+            u2 = copy.copy(u)
+            u2.object = u.object.swapcase()
+            try:
+                same_text = env.URI(str(u2)) == u2 and u2 != u
+            except Exception:
+                same_text = False
+            if same_text:
+                try:
+                    ns.register(name, u2)
+                    got2 = ns.lookup(name)
+                except Exception as x:
+                    rec.violation("nameserver-roundtrip-raises", "%s name server re-register/lookup of URI(%r) raised %r" % (label, str(u2), x), ("s", s))
+                    return u
+                if norm(got2) != norm(u2):
+                    rec.violation("nameserver-roundtrip-differs:reregistered-case-twin", "%s name server: %r was registered as %r and then as %r; lookup gives %r" % (
+                        label, name, str(u), str(u2), fields(got2)), ("s", s))
+                    return u
+                rec.count("ns_case_twin_reregistrations")
         # the other way to register: the accepted STRING itself (what nsc and scripts pass), not a URI object
         try:
             ns.register(name + ".s", s)
